@@ -16,7 +16,9 @@ PARSE_RULE = ("streams: all words of <= 3 (quick) / 4 (thorough) tokens over {da
               "each whole, byte-at-a-time, with every single cut and (short ones) every pair of cuts; grammar-based random streams (mixed LF/CR/CRLF, comments, "
               "look-alike names, invalid UTF-8, retry values around 2^63) with random / fixed / CRLF- and BOM-splitting cuts and random limits; size-targeted streams "
               "(groups of L-2..L+2 bytes first/middle/last with 0-2 preceding blank lines, endless lines / blank lines / comments) for L in {1..64, 4096, 4097, 65536} "
-              "through ReadConfig.MaxEventSize and Connection.Buffer with cap <,=,> max; entry points sse.Read, Connection (scripted RoundTripper), read() with a retry "
+              "through ReadConfig.MaxEventSize and Connection.Buffer with cap <,=,> max; entry points sse.Read, Connection (scripted RoundTripper; in a third of the cases the stream "
+              "is the body of the connection's SECOND attempt, after a first body that is empty or one of ten small streams that set / change / reset (empty id field) / fail to set (NUL, undispatched event) "
+              "the last event ID - the stream under test must be interpreted with the ID the first attempt left, computed by the model stack resp. the specification), read() with a retry "
               "callback and with an initial last event ID; endings clean EOF / scripted read error / context cancellation; early stop after 0-2 events; "
               "non-trivial = distinct inputs")
 
